@@ -141,13 +141,16 @@ type Check struct {
 	// MemLimitMB caps the child's address space (RLIMIT_AS) so that an allocation bomb is an
 	// observed process death instead of an OOM of the sandbox (not for race binaries).
 	MemLimitMB int
+	// Also lists further registered check ids (lanes) that decide the same property; `vcheck <ID>`
+	// runs them after the main lane and merges everything into one evidence file and exit code.
+	Also []string
 	// Extra lets a check add keys to coverage after aggregation.
 	Extra func(tier string, counters map[string]int64) map[string]interface{}
 }
 
 var registry = map[string]*Check{}
 
-func Register(c *Check) { registry[c.ID] = c }
+func Register(c *Check)    { registry[c.ID] = c }
 func Get(id string) *Check { return registry[id] }
 func IDs() []string {
 	var ids []string
@@ -485,6 +488,58 @@ func ParentMain(id, tier string, seed uint64) int {
 		fmt.Fprintln(os.Stderr, "unknown check", id)
 		return 2
 	}
+	ev, code := runParent(id, id, tier, seed)
+	// composite checks: further lanes registered under their own ids decide the same property
+	for _, sub := range chk.Also {
+		if Get(sub) == nil {
+			fmt.Fprintln(os.Stderr, "unknown sub-check", sub)
+			return 2
+		}
+		sev, scode := runParent(sub, id, tier, seed)
+		ev = mergeEvidence(ev, sev, sub)
+		if scode == 1 || (scode == 3 && code == 0) || (scode == 2 && code == 0) {
+			code = scode
+		}
+	}
+	if len(chk.Also) > 0 {
+		switch code {
+		case 0:
+			ev.Verdict = "held"
+		case 1:
+			ev.Verdict = "violated"
+		default:
+			ev.Verdict = "inconclusive"
+		}
+	}
+	os.MkdirAll(filepath.Join(VerifDir, "evidence"), 0755)
+	b, _ := json.MarshalIndent(ev, "", " ")
+	ioutil.WriteFile(filepath.Join(VerifDir, "evidence", id+".json"), b, 0644)
+	return code
+}
+
+func mergeEvidence(a, b Evidence, sub string) Evidence {
+	ai, _ := a.Coverage["evaluations"].(int)
+	bi, _ := b.Coverage["evaluations"].(int)
+	a.Coverage["evaluations"] = ai + bi
+	ad, _ := a.Coverage["distinct_nontrivial"].(int)
+	bd, _ := b.Coverage["distinct_nontrivial"].(int)
+	a.Coverage["distinct_nontrivial"] = ad + bd
+	a.Coverage["rule"] = fmt.Sprintf("%v || lane %s: %v", a.Coverage["rule"], sub, b.Coverage["rule"])
+	as, _ := a.Coverage["samples"].([]interface{})
+	bs, _ := b.Coverage["samples"].([]interface{})
+	a.Coverage["samples"] = append(as, bs...)
+	a.Coverage["lane_"+sub] = map[string]interface{}{"evaluations": bi, "distinct_nontrivial": bd, "observed": b.Coverage["observed"], "level": b.Level}
+	a.Assumptions = append(a.Assumptions, b.Assumptions...)
+	a.WallS += b.WallS
+	a.Violations += b.Violations
+	a.Known = append(a.Known, b.Known...)
+	a.Inconcl = append(a.Inconcl, b.Inconcl...)
+	return a
+}
+
+// runParent runs one registered check id and reports under property id propID.
+func runParent(id, propID, tier string, seed uint64) (Evidence, int) {
+	chk := Get(id)
 	t0 := time.Now()
 	n := chk.Cases(tier)
 	bsz := 0
@@ -640,7 +695,7 @@ func ParentMain(id, tier string, seed uint64) int {
 	for _, v := range viols {
 		matched := false
 		for _, f := range findings {
-			if f.Property == id && f.Key == v.V.Key {
+			if f.Property == propID && f.Key == v.V.Key {
 				known[f.Key] = f.Text
 				matched = true
 				break
@@ -653,7 +708,7 @@ func ParentMain(id, tier string, seed uint64) int {
 	var knownList []string
 	for k, t := range known {
 		knownList = append(knownList, k)
-		fmt.Printf("KNOWN-FINDING: property=%s %s (key=%s)\n", id, t, k)
+		fmt.Printf("KNOWN-FINDING: property=%s %s (key=%s)\n", propID, t, k)
 	}
 	sort.Strings(knownList)
 
@@ -668,10 +723,10 @@ func ParentMain(id, tier string, seed uint64) int {
 		os.MkdirAll(rdir, 0755)
 		path := filepath.Join(rdir, fmt.Sprintf("%s-s%d-c%d-%s.json", tier, seed, v.Index, sanitize(v.V.Key)))
 		b, _ := json.MarshalIndent(map[string]interface{}{
-			"property": id, "tier": tier, "seed": seed, "index": v.Index, "key": v.V.Key, "detail": v.V.Detail, "witness": v.V.Witness,
+			"property": propID, "check": id, "tier": tier, "seed": seed, "index": v.Index, "key": v.V.Key, "detail": v.V.Detail, "witness": v.V.Witness,
 		}, "", " ")
 		ioutil.WriteFile(path, b, 0644)
-		fmt.Printf("VIOLATION property=%s replay=%s\n", id, path)
+		fmt.Printf("VIOLATION property=%s replay=%s\n", propID, path)
 		fmt.Printf("  key=%s %s\n", v.V.Key, v.V.Detail)
 	}
 
@@ -699,7 +754,7 @@ func ParentMain(id, tier string, seed uint64) int {
 		verdict = "inconclusive"
 		code = 3
 	}
-	ev := Evidence{PropertyID: id, Tier: tier, Seed: int64(seed), Level: chk.Level, Coverage: cov, Assumptions: chk.Assumptions,
+	ev := Evidence{PropertyID: propID, Tier: tier, Seed: int64(seed), Level: chk.Level, Coverage: cov, Assumptions: chk.Assumptions,
 		WallS: time.Since(t0).Seconds(), Violations: len(seenKey), Known: knownList, Inconcl: inconcl, Verdict: verdict}
 	if ev.Known == nil {
 		ev.Known = []string{}
@@ -710,10 +765,6 @@ func ParentMain(id, tier string, seed uint64) int {
 	if ev.Assumptions == nil {
 		ev.Assumptions = []string{}
 	}
-	os.MkdirAll(filepath.Join(VerifDir, "evidence"), 0755)
-	b, _ := json.MarshalIndent(ev, "", " ")
-	ioutil.WriteFile(filepath.Join(VerifDir, "evidence", id+".json"), b, 0644)
-
 	// summary
 	keys := make([]string, 0, len(counters))
 	for k := range counters {
@@ -725,9 +776,9 @@ func ParentMain(id, tier string, seed uint64) int {
 		fmt.Printf("  %-40s %d\n", k, counters[k])
 	}
 	for _, s := range inconcl {
-		fmt.Printf("INCONCLUSIVE property=%s reason=%s\n", id, s)
+		fmt.Printf("INCONCLUSIVE property=%s reason=%s\n", propID, s)
 	}
-	return code
+	return ev, code
 }
 
 func firstLine(s string) string {
@@ -761,6 +812,7 @@ func ReplayMain(id, path string) int {
 		return 2
 	}
 	var r struct {
+		Check string `json:"check"`
 		Tier  string `json:"tier"`
 		Seed  uint64 `json:"seed"`
 		Index int    `json:"index"`
@@ -769,6 +821,10 @@ func ReplayMain(id, path string) int {
 	if err := json.Unmarshal(b, &r); err != nil {
 		fmt.Fprintln(os.Stderr, err)
 		return 2
+	}
+	if r.Check != "" && Get(r.Check) != nil {
+		chk = Get(r.Check) // the witness came from one of the property's lanes
+		id = r.Check
 	}
 	if r.Index < 0 {
 		fmt.Println("replay: the witness is a whole-run observation (race report / process death); re-run the check with VERIF_SEED =", r.Seed)
